@@ -37,6 +37,7 @@ Definition cpcs (p : opcT) : bool := match p with C0 | CJ | C1 | C2 | C3 => true
 Definition cjoin (p : opcT) : bool := match p with C0 | CJ => true | _ => false end.
 Definition cres (p : opcT) : bool := match p with C1 | C2 | C3 => true | _ => false end.
 Definition cdis1 (p : opcT) : bool := match p with CJ | C1 => true | _ => false end.
+Definition copcs (p : opcT) : bool := match p with C0 | C1 | FD0 | FE0 => true | _ => false end.
 Definition drainset (p : opcT) : bool := inpoll p || match p with FE0 => true | _ => false end.
 Definition parkset (p : opcT) : bool := match p with P4 | P4t | P5 | P5w | P6 => true | _ => false end.
 Definition waitset (p : opcT) : bool := match p with P4 | P5 | P5w => true | _ => false end.
@@ -105,6 +106,7 @@ Record Inv (s : st) : Prop := {
   O_dis  : odis s = if oco s
                     then (if cdis1 (opc s) then 1 else 0) + (if negb (Nat.eqb (ofin s) 0) && drainset (opc s) then 1 else 0)
                     else 0;
+  O_co   : copcs (opc s) = true -> oco s = true;
   W_tw   : forall b, towake s = Some b -> b = ob s /\ b < nextb s;
   W_ob   : parkset (opc s) = true -> ob s < nextb s;
   W_tok  : waitset (opc s) = true ->
@@ -240,5 +242,5 @@ Ltac pcs :=
   | E : kpc ?s ?a = _ |- _ => rewrite E in *
   | E : opc ?s = _ |- _ => rewrite E in *
   end;
-  cbn [dset decd endset postd0 is_adone running kact4 kpost inpoll adding is_oa2 is_oexit cpcs cjoin cres cdis1 drainset parkset
+  cbn [dset decd endset postd0 is_adone running kact4 kpost inpoll adding is_oa2 is_oexit cpcs cjoin cres cdis1 copcs drainset parkset
        waitset sleepset goneset finrel ctr is_abot is_asusp user_pc is_onone negb andb orb] in *.
